@@ -54,7 +54,8 @@ func cmdLoader(args []string) {
 	out := fset.String("out", "", "output prefix (mismatches)")
 	fset.Parse(args)
 	w := newShardWriter(*out, 1)
-	n, bad, stricter := 0, 0, 0
+	n, bad, stricter, div := 0, 0, 0, 0
+	lw := newShardWriter(*out+".load", 1)
 	for ci, c := range readNDJSON(*in) {
 		var lines []string
 		for k, l := range c["lines"].([]interface{}) {
@@ -96,11 +97,20 @@ func cmdLoader(args []string) {
 			}
 		}
 		switch {
-		case pan != "", !gotErr && wantErr, !gotErr && !wantErr && !same:
-			// a panic; accepted although the model says the text cannot be represented; accepted with another result
+		case pan != "":
 			bad++
-			w.line(fmt.Sprintf(`{"text":%s,"d":%d,"M":%d,"wanterr":%v,"want":%s,"wantstart":%d,"goterr":%v,"got":%s,"gotstart":%d,"panic":%s,"case":%s}`,
+			w.line(fmt.Sprintf(`{"kind":"property","text":%s,"d":%d,"M":%d,"wanterr":%v,"want":%s,"wantstart":%d,"goterr":%v,"got":%s,"gotstart":%d,"panic":%s,"case":%s}`,
 				jq(text), d, m, wantErr, insListJSON(wantCode), wantStart, gotErr, insListJSON(gotCode), gotStart, jq(pan), mustJSON(c)))
+		case !gotErr && wantErr, !gotErr && !wantErr && !same:
+			// accepted although the model refuses the text, or accepted with another result: a divergence between model and
+			// code.  Whether the PROPERTY (C10) is violated is decided by TLC on the read itself: it goes to the "load" trace
+			// (well-formed, legal under '88, one instruction per effective line - ToolTrace!CheckLoad).
+			div++
+			lw.line(loadEvent(text, d, m))
+			if div <= 25 {
+				w.line(fmt.Sprintf(`{"kind":"divergence","text":%s,"d":%d,"M":%d,"wanterr":%v,"want":%s,"wantstart":%d,"goterr":%v,"got":%s,"gotstart":%d,"panic":%s,"case":%s}`,
+					jq(text), d, m, wantErr, insListJSON(wantCode), wantStart, gotErr, insListJSON(gotCode), gotStart, jq(pan), mustJSON(c)))
+			}
 		case gotErr && !wantErr:
 			stricter++ // the reader may refuse more than the model; not a violation of the property
 		}
@@ -109,5 +119,6 @@ func cmdLoader(args []string) {
 		}
 	}
 	w.close()
-	fmt.Printf(`{"cases":%d,"mismatches":%d,"reader_stricter_than_model":%d}`+"\n", n, bad, stricter)
+	lw.close()
+	fmt.Printf(`{"cases":%d,"mismatches":%d,"divergences":%d,"reader_stricter_than_model":%d}`+"\n", n, bad, div, stricter)
 }
